@@ -69,6 +69,8 @@ Inductive cond : Type :=
    so the big-endian value is its byte swap.  (A 14-bit field: the 16-bit mask is the identity.) *)
 Definition pon_pli (j : job_view) : N := w16 (N.shiftr (bswap64 (jv_mem_xgem_hdr j)) 50).
 
+Definition seg_in_ok (s : sgl_seg) : bool := (seg_len s =? 0) || negb (seg_in s =? 0).
+Definition seg_out_ok (s : sgl_seg) : bool := (seg_len s =? 0) || negb (seg_out s =? 0).
 Definition sgl_total (segs : list sgl_seg) : N := fold_right (fun s acc => seg_len s + acc) 0 segs.
 
 Fixpoint holds (c : cond) (j : job_view) : bool :=
@@ -91,8 +93,8 @@ Fixpoint holds (c : cond) (j : job_view) : bool :=
   | DocsisLenFits => jv_msg_len_to_cipher j + 8 <=? jv_msg_len_to_hash j
   | DocsisOffsetFits => jv_hash_start_src_offset j + 12 <=? jv_cipher_start_src_offset j
   | SglArrayNonNull => (jv_num_sgl_io_segs j =? 0) || negb (jv_sgl_io_segs j =? 0)
-  | SglSegInNonNull => forallb (fun s => (seg_len s =? 0) || negb (seg_in s =? 0)) (jv_sgl_segs j)
-  | SglSegOutNonNull => forallb (fun s => (seg_len s =? 0) || negb (seg_out s =? 0)) (jv_sgl_segs j)
+  | SglSegInNonNull => forallb seg_in_ok (jv_sgl_segs j)
+  | SglSegOutNonNull => forallb seg_out_ok (jv_sgl_segs j)
   | SglTotalAtMost m => sgl_total (jv_sgl_segs j) <=? m
   end.
 
